@@ -545,6 +545,7 @@ TREE = {
     "ide::def::module::typeref_from_ast": "descends the syntax tree of one type expression",
     "ide::def::scope::ExprScopes::traverse_expr": "descends the Body arena along child ids; lowering allocates children before parents, so ids form a tree",
     "ide::def::scope::ExprScopes::add_bindings": "descends the pattern arena along child ids (tree)",
+    "ide::def::body::Body::walk_binders": "descends the pattern arena along child ids (tree; depth = nesting of the pattern, see C02/P5)",
     "ide::ty::infer::InferCtx::infer_expr": "descends the Body arena along child ids (tree)",
     "ide::ty::infer::InferCtx::infer_pattern": "descends the pattern arena along child ids (tree)",
     "ide::ty::infer::InferCtx::make_type": "descends a frozen ide::ty::Ty value, a finite tree of Arcs built by Collector",
